@@ -69,6 +69,10 @@ var (
 	initReverting = asm("PUSH1", 0, "PUSH1", 0, "REVERT")
 )
 
+// blockFixtureFreeGas: the next fixture is a chain whose fee market parameters are base fee 0 and minimum gas price 0
+// (valid parameters: gas is free unless a sender offers a tip)
+var blockFixtureFreeGas bool
+
 func newBlockFixture(t *testing.T, maxGas int64) *blockFixture {
 	c := newChain(t)
 	f := &blockFixture{c: c, maxGas: maxGas, nonces: map[int]uint64{}, seqAtBegin: map[int]uint64{}, cosmosAdmitted: map[int]uint64{}}
@@ -113,6 +117,13 @@ func newBlockFixture(t *testing.T, maxGas int64) *blockFixture {
 	// a poor wallet: enough for nothing but a couple of cheap txs
 	f.poor = c.s.CreateAccount()
 	fund(f.poor.GetEthAddress(), c.evmDenom, 30_000_000_000_000) // 21000 gas at 1 gwei = 2.1e13
+	if blockFixtureFreeGas {
+		fk := c.s.ChainApp.FeeMarketKeeper()
+		fp := fk.GetParams(ctx)
+		fp.BaseFee = sdkmath.ZeroInt()
+		fp.MinGasPrice = sdkmath.LegacyZeroDec()
+		require.NoError(t, fk.SetParams(ctx, fp))
+	}
 	if maxGas != 0 {
 		app := c.s.ChainApp.IbcTestingApp().(*chainapp.Evermint)
 		cp, err := app.ConsensusParamsKeeper.ParamsStore.Get(ctx)
@@ -162,7 +173,13 @@ func TestEngineBlock(t *testing.T) {
 	maxGas := int64(hx.EnvInt("VERIF_MAXGAS", 3_000_000))
 	f := newBlockFixture(t, maxGas)
 	defer f.c.s.Cleanup()
-	runBlocks(t, f, rng, p, nTx)
+	runBlocks(t, f, rng, p, nTx-nTx/6)
+	// a second chain on which gas is free (base fee 0, minimum gas price 0): the effective price is the tip alone
+	blockFixtureFreeGas = true
+	f2 := newBlockFixture(t, maxGas)
+	blockFixtureFreeGas = false
+	defer f2.c.s.Cleanup()
+	runBlocks(t, f2, rng, p, nTx/6)
 }
 
 func runBlocks(t *testing.T, f *blockFixture, rng *hx.Rng, p *hx.Proto, nTx int) {
@@ -544,7 +561,9 @@ func (f *blockFixture) genTx(rng *hx.Rng, baseFee *big.Int, ws []*itutiltypes.Te
 			g.kind = "create-value-too-high"
 		}
 	case kind < 81: // panic inside the handler: value to a block-listed module account
-		to := common.BytesToAddress(authtypes.NewModuleAddress(authtypes.FeeCollectorName))
+		// (every module account is block-listed, the EVM module's own transit account included: it must end every block empty)
+		to := common.BytesToAddress(authtypes.NewModuleAddress(hx.Pick(rng, []string{authtypes.FeeCollectorName, evmtypes.ModuleName, evmtypes.ModuleName, cpctypes.ModuleName,
+			"distribution", "bonded_tokens_pool", "not_bonded_tokens_pool", "gov", "mint", "transfer", "interchainaccounts", "vauth"})))
 		a.to = &to
 		a.value = big.NewInt(5)
 		a.gas = 50_000
@@ -700,7 +719,9 @@ func (f *blockFixture) lines(g genTx, o txObs, ws []*itutiltypes.TestAccount) (s
 		pan = 1
 	}
 	mg := int64(0)
-	if obsClass(o) == "ante:evm/16" {
+	if cl := obsClass(o); cl == "ante:evm/16" || cl == "ante:undefined/111222" {
+		// refused before / by a panic inside the ante handler: the reading of the context's own gas meter is what the result
+		// reports and what the block gas meter is charged; it enters the model as an observed value
 		mg = o.gasUsed
 	}
 	op := fmt.Sprintf("%s | x=%s gb=%d rc=%d nl=%d pan=%d mg=%d", g.opline, x, g.gb, g.rc, nl, pan, mg)
